@@ -62,6 +62,9 @@ type Plan struct {
 	Concurrent bool `json:"concurrent"`
 	Strategy   int  `json:"strategy"`
 	EarlyProbe bool `json:"early_probe"` // probes before the stream exists are allowed
+	// HeaderWaits: Header() of the underlying stream blocks until the next message
+	// sent has reached that stream (or the call's context ends)
+	HeaderWaits bool `json:"header_waits,omitempty"`
 	// Chain: the stream's context derives from the context an earlier intercepted
 	// unary call handed to its invoker (an application tying calls together)
 	Chain bool `json:"chain,omitempty"`
@@ -106,6 +109,7 @@ func Generate(r *rand.Rand, profile string, concurrent bool, avoid map[string]bo
 	if concurrent {
 		p.Strategy = r.IntN(6) // 0 random walk, 1-3 PCT depth, 4-5 one long stall
 	}
+	p.HeaderWaits = r.IntN(3) == 0
 	p.EarlyProbe = !avoid["early_probe"] || r.IntN(4) == 0
 	if avoid["no_early_probe"] {
 		p.EarlyProbe = false
@@ -188,6 +192,9 @@ func (f *fakeCS) SendMsg(m interface{}) error {
 		f.s.nUnderErr++
 	}
 	f.s.reached = kern.Push(f.s.reached, rec{kind: "send", task: curTask(f.s), msg: m, seq: len(f.s.reached), err: err})
+	if f.s.hdrWaiting > 0 {
+		f.s.k.Set(&f.s.hdrW)
+	}
 	return err
 }
 
@@ -205,7 +212,17 @@ func (f *fakeCS) RecvMsg(m interface{}) error {
 }
 
 //go:norace
-func (f *fakeCS) Header() (metadata.MD, error) { f.s.probed++; return metadata.MD{"h": {"1"}}, nil }
+func (f *fakeCS) Header() (metadata.MD, error) {
+	f.s.probed++
+	if f.s.plan.HeaderWaits && !f.s.hdrW.IsSet() && !f.s.ctxEnded {
+		// the server sends its headers only after the next message of the client
+		// has reached it (or the call ends): Header() blocks meanwhile, as grpc-go's
+		// does - and nothing else on the stream may wait for it
+		f.s.hdrWaiting++
+		f.s.k.Wait(&f.s.hdrW)
+	}
+	return metadata.MD{"h": {"1"}}, nil
+}
 
 //go:norace
 func (f *fakeCS) Trailer() metadata.MD { f.s.probed++; return metadata.MD{"t": {"1"}} }
@@ -244,6 +261,8 @@ type sim struct {
 	lastCtx         context.Context // context an interceptor handed to its invoker/streamer last
 	sending         []sendRec
 	unblock         kern.Waiter
+	hdrW            kern.Waiter // set when the "server" has sent its headers (plan.HeaderWaits)
+	hdrWaiting      int
 	blocked         bool
 	reached         []rec
 	probed          int
@@ -450,6 +469,7 @@ func (s *sim) run(src *simkit.Source, logOn bool) {
 	src.Segment(0)
 	s.opIdx = -1
 	s.unblock.Note = "stream creation blocked"
+	s.hdrW.Note = "Header() of the underlying stream waits for the server's headers"
 	base := grpcgcp.NewMEContext(context.WithValue(context.Background(), ctxKey("caller"), "value"), "me-of-the-caller")
 	if s.plan.Chain {
 		// an earlier intercepted unary call; the stream's context derives from the
@@ -624,6 +644,7 @@ func (s *sim) exec(o Op) {
 		if !s.ctxEnded {
 			s.cancelCtx()
 			s.ctxEnded = true
+			s.k.Set(&s.hdrW)
 			s.k.Bump()
 			s.res.Count("fault:ctx_cancel", 1)
 		}
@@ -632,6 +653,8 @@ func (s *sim) exec(o Op) {
 		s.k.Advance(time.Duration(o.A) * time.Millisecond)
 		if s.plan.Deadline > 0 && s.k.Elapsed() >= time.Duration(s.plan.Deadline)*time.Millisecond && !s.ctxEnded {
 			s.ctxEnded = true
+			s.k.Set(&s.hdrW)
+			s.k.Quiesce()
 			s.res.Count("fault:ctx_deadline", 1)
 		}
 		s.check()
@@ -932,6 +955,7 @@ func (s *sim) heal() {
 	if !s.ctxEnded {
 		s.cancelCtx()
 		s.ctxEnded = true
+		s.k.Set(&s.hdrW)
 		s.k.Bump()
 		s.k.Quiesce()
 		s.check()
@@ -945,6 +969,10 @@ func (s *sim) finish() {
 	k := s.k
 	if s.blocked {
 		k.Set(&s.unblock)
+	}
+	k.Set(&s.hdrW)
+	if s.hdrWaiting > 0 {
+		s.res.Count("fault:header_call_waiting_for_the_next_message", s.hdrWaiting)
 	}
 	k.Shutdown()
 	if s.cancel != nil {
